@@ -6,8 +6,10 @@ package symgo
 import (
 	"fmt"
 	"go/types"
+	"os"
 	"sort"
 	"strings"
+	"time"
 
 	"golang.org/x/tools/go/ssa"
 )
@@ -134,6 +136,7 @@ type Machine struct {
 	pendingObs []pendingObs
 	pathNo     int
 	region     string
+	curFrame   *frame
 }
 
 func NewMachine(prog *ssa.Program, cfg Config) (*Machine, error) {
@@ -176,16 +179,30 @@ func (m *Machine) learn(c *Term, val bool) {
 	}
 }
 
+// lookupKnown evaluates c under the facts known on this path (three-valued: known true, known
+// false, unknown), looking through not/and/or without consulting the solver.
 func (m *Machine) lookupKnown(c *Term) (bool, bool) {
+	return m.evalKnown(c, 0)
+}
+
+func (m *Machine) evalKnown(c *Term, depth int) (bool, bool) {
+	if c.Op == OpConst {
+		return c.Val != 0, true
+	}
 	if v, ok := m.known[c]; ok {
 		return v, true
 	}
-	// conjunction all of whose members are known true / one known false
+	if depth > 6 {
+		return false, false
+	}
 	switch c.Op {
+	case OpBNot:
+		v, ok := m.evalKnown(c.Args[0], depth+1)
+		return !v, ok
 	case OpBAnd:
 		all := true
 		for _, a := range c.Args {
-			v, ok := m.known[a]
+			v, ok := m.evalKnown(a, depth+1)
 			if ok && !v {
 				return false, true
 			}
@@ -199,7 +216,7 @@ func (m *Machine) lookupKnown(c *Term) (bool, bool) {
 	case OpBOr:
 		all := true
 		for _, a := range c.Args {
-			v, ok := m.known[a]
+			v, ok := m.evalKnown(a, depth+1)
 			if ok && v {
 				return true, true
 			}
@@ -215,7 +232,11 @@ func (m *Machine) lookupKnown(c *Term) (bool, bool) {
 }
 
 func (m *Machine) check(extra *Term) Result {
+	t0 := time.Now()
 	r := m.S.Check(extra)
+	if slowQ && time.Since(t0) > 500*time.Millisecond {
+		fmt.Fprintf(os.Stderr, "SLOWQ %.1fs %v term=%s\n  at %s\n", time.Since(t0).Seconds(), r, clip(extra.String(), 600), m.where())
+	}
 	if r == Unknown {
 		m.abort("inconclusive:solver " + m.S.LastErr)
 	}
@@ -573,7 +594,7 @@ func (m *Machine) RunPath(fn *ssa.Function, initPkgs []*ssa.Package, trace []Dec
 		if m.pos < len(m.trace) {
 			panic(fmt.Sprintf("symgo: replay divergence: path ended with %d unused trace elements", len(m.trace)-m.pos))
 		}
-		if m.cfg.WantModel && (m.pathNo < 64 || m.pathNo%m.cfg.ModelEvery == 0) {
+		if m.cfg.WantModel && (m.pathNo <= 6 || m.pathNo%m.cfg.ModelEvery == 0) {
 			vars := append(m.inputVars(), m.obsTerms()...)
 			r, model := m.S.CheckModel(nil, vars)
 			if r == Sat && model != nil {
@@ -641,6 +662,22 @@ func (m *Machine) safeViolation(kind, label, msg string) {
 }
 
 type fatalError struct{ msg string }
+
+var slowQ = os.Getenv("VERIF_SLOWQ") != ""
+
+func clip(s string, n int) string {
+	if len(s) > n {
+		return s[:n] + "…"
+	}
+	return s
+}
+
+func (m *Machine) where() string {
+	if m.curFrame == nil {
+		return "?"
+	}
+	return targetStack(m.curFrame)
+}
 
 func panicString(m *Machine, v value) string {
 	if itf, ok := v.(iface); ok {
